@@ -5,6 +5,7 @@ import (
 	"fmt"
 	"math/rand"
 	"os"
+	"time"
 
 	"verifharness/pqengine"
 )
@@ -104,7 +105,10 @@ func runPQHistory(rep *Report, cfg pqengine.Config, ops []pqengine.Op, seed int6
 		e.Close()
 		return e
 	}
-	e := run(ops)
+	var e *pqengine.Engine
+	rep.guard(30*time.Second, Violation{Kind: "oracle", Sig: "pq/history-does-not-terminate",
+		Detail: fmt.Sprintf("a queue operation does not return on %s; history: %s", cfg, pqOpKinds(ops)),
+		Replay: pqReplay{Config: cfg, Ops: ops, Seed: seed, Mode: mode}}, func() { e = run(ops) })
 	rep.Evaluations++
 	if e == nil {
 		rep.violate(Violation{Kind: "oracle", Sig: "pq-create-failed", Detail: "creating the queue failed for " + cfg.String(), Replay: pqReplay{Config: cfg, Ops: ops, Seed: seed, Mode: mode}})
@@ -120,12 +124,29 @@ func runPQHistory(rep *Report, cfg pqengine.Config, ops []pqengine.Op, seed int6
 	sig := "pq/" + failSig(e.Failures[0])
 	min := ops
 	if !rep.distinct["viol/"+sig] {
+		// keep the unshrunk failure on disk: a shrink candidate may hang
+		rep.Violations = append(rep.Violations, Violation{Kind: "oracle", Sig: sig,
+			Detail: fmt.Sprintf("%s on %s; history (not minimised): %s", e.Failures[0], cfg, pqOpKinds(ops)),
+			Replay: pqReplay{Config: cfg, Ops: ops, Failures: e.Failures, Log: e.Log, Seed: seed, Mode: mode}})
+		rep.checkpoint()
+		rep.Violations = rep.Violations[:len(rep.Violations)-1]
+		hangs := 0
 		min = pqShrink(ops, func(c []pqengine.Op) bool {
-			e2 := run(c)
+			if hangs >= 3 {
+				return false
+			}
+			var e2 *pqengine.Engine
+			if !tryRun(20*time.Second, func() { e2 = run(c) }) {
+				hangs++
+				return false
+			}
 			return e2 != nil && len(e2.Failures) > 0 && "pq/"+failSig(e2.Failures[0]) == sig
 		})
 	}
-	e3 := run(min)
+	var e3 *pqengine.Engine
+	if !tryRun(20*time.Second, func() { e3 = run(min) }) {
+		e3 = nil
+	}
 	if e3 == nil || len(e3.Failures) == 0 {
 		e3, min = e, ops
 	}
